@@ -2743,7 +2743,8 @@ class FlowIR(object):
         """
         known_components = cls.organize_identifiers_to_stages(component_ids)
 
-        method_pattern = '|'.join(cls.data_reference_methods)
+        # VV: longest first, otherwise `copy` matches the beginning of `:copyout` and the reference is cut short
+        method_pattern = '|'.join(sorted(cls.data_reference_methods, key=len, reverse=True))
 
         # VV: Variable references or paths that contain numbers, letters, `_`, `-`, `.` followed by a reference method
         pattern = re.compile(r"([.a-zA-Z0-9_/-]|%s)+:(%s)" % (FlowIR.VariablePattern, method_pattern))
